@@ -4,8 +4,8 @@ from vlib import common as C
 from vlib import langsuite as L
 from vlib import gensuite as G
 
-QUICK_SUITES = ["c07", "c06", "c11", "c13"]
-ALL_SUITES = ["c07", "c06", "c11", "c13", "c12", "c04"]
+QUICK_SUITES = ["c07", "c06", "c11", "c13", "c12t"]
+ALL_SUITES = ["c07", "c06", "c11", "c13", "c12t", "c12", "c04"]
 
 
 def run_sound(prop, tier, rule, assumptions):
